@@ -9,7 +9,7 @@ invariant of the reachable states,
 * `CInv (tables s.w) n`: at most `n` connects are outstanding, every outstanding `network_write` and every
   buffered writer sits on a slot descriptor (≥ 64),
 
-and a condition on the **op list** alone (`OpsOk`, decidable): at most 61 `nc_start` / `hq_start` lines between two
+and a condition on the **op list** alone (`OpsOk`, decidable): at most 61 `nc_start` / `hq_start` / `hqs_start` lines between two
 `end`s.  Then `freshFd` — the lowest descriptor ≥ 3 that is not the socket of an outstanding connect — is below 64,
 and the registry (`Inv.regNet`: exactly the registrations the objects hold) has no write registration there; the
 timers are those of the connects (`Inv.regTm`), so there are at most 61.
@@ -75,6 +75,7 @@ structure CInv (t : Tables) (n : Nat) : Prop where
 def connCost : LOp → Nat
   | .connect _ _ _ => 1
   | .http _ _ _ => 1
+  | .https _ _ _ _ => 1
   | _ => 0
 
 theorem cinv_mono {t : Tables} {n m : Nat} (h : CInv t n) (hnm : n ≤ m) : CInv t m :=
@@ -101,8 +102,11 @@ theorem cinv_ev {t t' : Tables} {c0 : LOp} {rc : Rc} {o : Option Nat} {n : Nat} 
       rcases List.mem_cons.1 hy with rfl | hy
       · rw [hfd]; exact hnew fd (Or.inr rfl)
       · exact hb.writers y hy⟩
-  case http a l s x hd c k hk hfc hfx =>
-    exact ⟨by simp only [List.length_cons, connCost]; have := hb.conns; omega, hb.writes, hb.writers⟩
+  case http =>
+    rename_i a0 l0 s0 x0 hd0 c1 ho0 k0 hk0 hfc0 hfx0 hc0
+    refine ⟨?_, hb.writes, hb.writers⟩
+    have := hb.conns
+    rcases hc0 with h1 | ⟨hl, h1⟩ <;> rw [h1] <;> simp only [List.length_cons, connCost] <;> omega
   case readCancel => exact ⟨hb.conns, hb.writes, hb.writers⟩
   case writeCancel c hun => exact ⟨hb.conns, fun r hr => hb.writes r (List.mem_filter.1 hr).1, hb.writers⟩
   case acceptCancel => exact ⟨hb.conns, hb.writes, hb.writers⟩
@@ -149,6 +153,7 @@ theorem cinv_ev {t t' : Tables} {c0 : LOp} {rc : Rc} {o : Option Nat} {n : Nat} 
 def isConn : UOp → Bool
   | .ncStart _ _ _ => true
   | .hqStart _ _ _ => true
+  | .hqsStart _ _ _ _ => true
   | _ => false
 
 /-- only a connect line stands for a connect call -/
@@ -164,6 +169,7 @@ theorem callOf_conn {s : S} {op : UOp} {c0 : LOp} (hc : callOf s op = some c0) (
   | nbwInit hh sl => obtain ⟨_, _, _, rfl⟩ := callOf_nbwInit hc; exact absurd rfl h0
   | ncStart hh a tm => rfl
   | hqStart hh a pl => rfl
+  | hqsStart hh a pl hl => rfl
   | nbrWait hh len => obtain ⟨_, _, _, _, _, _, _, rfl⟩ := callOf_nbrWait hc; exact absurd rfl h0
   | nbwReserve hh len => obtain ⟨_, _, _, _, _, rfl⟩ := callOf_nbwReserve hc; exact absurd rfl h0
   | nbwConsume hh len => obtain ⟨_, _, _, _, _, _, _, rfl⟩ := callOf_nbwConsume hc; exact absurd rfl h0
@@ -190,6 +196,7 @@ theorem callOf_write_fd {s : S} {op : UOp} {c0 : LOp} (hc : callOf s op = some c
     simp only [FDBASE]; omega
   | ncStart hh a tm => obtain ⟨_, _, rfl⟩ := callOf_ncStart hc; rcases h with h | h <;> cases h
   | hqStart hh a pl => obtain ⟨_, _, rfl⟩ := callOf_hqStart hc; rcases h with h | h <;> cases h
+  | hqsStart hh a pl hl => obtain ⟨_, _, rfl⟩ := callOf_hqsStart hc; rcases h with h | h <;> cases h
   | nbrWait hh len => obtain ⟨_, _, _, _, _, _, _, rfl⟩ := callOf_nbrWait hc; rcases h with h | h <;> cases h
   | nbwReserve hh len => obtain ⟨_, _, _, _, _, rfl⟩ := callOf_nbwReserve hc; rcases h with h | h <;> cases h
   | nbwConsume hh len => obtain ⟨_, _, _, _, _, _, _, rfl⟩ := callOf_nbwConsume hc; rcases h with h | h <;> cases h
@@ -226,13 +233,15 @@ theorem wf_of_cinv (s : S) (op : UOp) (n : Nat) (U : UInv s) (C : CInv (tables s
     (hn : isConn op = true → n ≤ 60) : WF s op := by
   refine ⟨fun a tm l fd h => ?_⟩
   have hconn : isConn op = true := by
-    rcases h with h | h <;> exact callOf_conn h (by simp [connCost])
+    rcases h with h | h | ⟨hl, h⟩ <;> exact callOf_conn h (by simp [connCost])
   have hfd : fd = freshFd s.w := by
     cases op with
     | ncStart hh a' tm' =>
-      rcases h with h | h <;> (obtain ⟨_, _, he⟩ := callOf_ncStart h; cases he; try rfl)
+      rcases h with h | h | ⟨hl, h⟩ <;> (obtain ⟨_, _, he⟩ := callOf_ncStart h; cases he; try rfl)
     | hqStart hh a' pl =>
-      rcases h with h | h <;> (obtain ⟨_, _, he⟩ := callOf_hqStart h; cases he; try rfl)
+      rcases h with h | h | ⟨hl, h⟩ <;> (obtain ⟨_, _, he⟩ := callOf_hqStart h; cases he; try rfl)
+    | hqsStart hh a' pl hl' =>
+      rcases h with h | h | ⟨hl, h⟩ <;> (obtain ⟨_, _, he⟩ := callOf_hqsStart h; cases he; try rfl)
     | _ => cases hconn
   subst hfd
   obtain ⟨h1, h2⟩ := connect_ready s.w n U.inv C (hn hconn)
@@ -283,6 +292,7 @@ theorem cinv_step (s : S) (op : UOp) (n : Nat) (U : UInv s) (C : CInv (tables s.
   | rel k h => exact hcallk rfl (fun h => nomatch h)
   | ncStart h a t => exact hcallk rfl (fun h => nomatch h)
   | hqStart h a pl => exact hcallk rfl (fun h => nomatch h)
+  | hqsStart h a pl hl => exact hcallk rfl (fun h => nomatch h)
 
 /-! ## the condition on the op list, and whole runs -/
 
@@ -292,7 +302,7 @@ def okFrom : Nat → List UOp → Bool
   | _, [] => true
   | n, op :: rest => (!isConn op || decide (n ≤ 60)) && okFrom (budget n op) rest
 
-/-- **well-formedness of a case, decidable on the op list**: at most 61 `nc_start` / `hq_start` lines between two
+/-- **well-formedness of a case, decidable on the op list**: at most 61 `nc_start` / `hq_start` / `hqs_start` lines between two
 `end`s.  (The generator of `tools/props/c14.py` makes at most 29 rounds per case with at most two such lines each;
 nothing else is assumed — handles, slots, lengths, patterns and timeouts are arbitrary.) -/
 def OpsOk (ops : List UOp) : Prop := okFrom 0 ops = true
